@@ -329,7 +329,8 @@ fn starting_sub_multiple(lg_target: u8, lg_min: u8, lg_resize_factor: u8) -> u8 
 /// Compute initial theta for hash table based on sampling probability.
 fn starting_theta_from_sampling_probability(sampling_probability: f32) -> u64 {
     if sampling_probability < 1.0 {
-        (MAX_THETA as f64 * sampling_probability as f64) as u64
+        // a positive probability keeps theta positive (estimates and bounds divide by it)
+        ((MAX_THETA as f64 * sampling_probability as f64) as u64).max(1)
     } else {
         MAX_THETA
     }
